@@ -471,6 +471,34 @@ def c11() -> List[M]:
     ]
 
 
+def c18() -> List[M]:
+    return [
+        M("C18", "et-dod-getter-writes", ET, "    async def get_ongrid_battery_dod(self) -> int:\n        return 100 - await self.read_setting('battery_discharge_depth')",
+          "    async def get_ongrid_battery_dod(self) -> int:\n        await self.write_setting('battery_discharge_depth', 10)\n        return 100 - await self.read_setting('battery_discharge_depth')", "C18.R1"),
+        M("C18", "es-settings-read-command-is-write", ES, 'Aa55ProtocolCommand("010900", "0189")', 'Aa55ProtocolCommand("030900", "0389")', "C18.R1"),
+        M("C18", "dt-runtime-sends-write", DT, "                response = await self._read_from_socket(self._READ_METER_DATA)", "                response = await self._read_from_socket(self._write_command(0x75f3, 0xF))", "C18.R1"),
+        M("C18", "es-get-mode-sets-offgrid", ES, "    async def get_operation_mode(self) -> OperationMode | None:\n        mode_id = await self.read_setting('work_mode')\n        try:\n            mode = OperationMode(mode_id)\n        except ValueError:\n            logger.debug(\"Unknown work_mode value %s\", mode_id)\n            return None\n        if OperationMode.ECO != mode:\n            return mode\n        eco_mode = await self.read_setting('eco_mode_1')\n        if eco_mode.is_eco_charge_mode():\n            return OperationMode.ECO_CHARGE\n        if eco_mode.is_eco_discharge_mode():\n            return OperationMode.ECO_DISCHARGE\n        return OperationMode.ECO\n\n    async def set_operation_mode(self, operation_mode: OperationMode, eco_mode_power: int = 100,\n                                 eco_mode_soc: int = 100) -> None:\n        if operation_mode == OperationMode.GENERAL:\n            await self._set_general_mode()",
+          "    async def get_operation_mode(self) -> OperationMode | None:\n        await self._set_offgrid_work_mode(0)\n        mode_id = await self.read_setting('work_mode')\n        try:\n            mode = OperationMode(mode_id)\n        except ValueError:\n            logger.debug(\"Unknown work_mode value %s\", mode_id)\n            return None\n        if OperationMode.ECO != mode:\n            return mode\n        eco_mode = await self.read_setting('eco_mode_1')\n        if eco_mode.is_eco_charge_mode():\n            return OperationMode.ECO_CHARGE\n        if eco_mode.is_eco_discharge_mode():\n            return OperationMode.ECO_DISCHARGE\n        return OperationMode.ECO\n\n    async def set_operation_mode(self, operation_mode: OperationMode, eco_mode_power: int = 100,\n                                 eco_mode_soc: int = 100) -> None:\n        if operation_mode == OperationMode.GENERAL:\n            await self._set_general_mode()", "C18.R1"),
+        M("C18", "et-read-sensor-unsupported-writes-back", ET, "                self._settings.pop(sensor.id_, None)\n                raise ValueError(f'Unknown sensor/setting \"{sensor.id_}\"')", "                self._settings.pop(sensor.id_, None)\n                await self._read_from_socket(self._write_command(sensor.offset, 0))\n                raise ValueError(f'Unknown sensor/setting \"{sensor.id_}\"')", "C18.R1"),
+        M("C18", "discover-uses-send-command", INIT, "            await i.read_device_info()\n            await i.read_runtime_data()", "            await i.read_device_info()\n            await i.send_command(b'\\x00')\n            await i.read_runtime_data()", "C18.R1"),
+        M("C18", "benign-es-runtime-payload-concatenated", ES, 'Aa55ProtocolCommand("010600", "0186")', 'Aa55ProtocolCommand("01" + "0600", "0186")', "clean"),
+        M("C18", "et-export-limit-accepts-minus-one", ET, "        if export_limit >= 0:\n            await self.write_setting('grid_export_limit', export_limit)", "        if export_limit >= -1:\n            await self.write_setting('grid_export_limit', export_limit)", "C18.R2"),
+        M("C18", "dt-export-limit-unguarded", DT, "        if export_limit >= 0:\n            return await self.write_setting('grid_export_limit', export_limit)", "        if True:\n            return await self.write_setting('grid_export_limit', export_limit)", "C18.R2"),
+        M("C18", "es-dod-accepts-101", ES, "        if 0 <= dod <= 100:", "        if 0 <= dod <= 101:", "C18.R2"),
+        M("C18", "et-dod-upper-unchecked", ET, "        if 0 <= dod <= 100:", "        if 0 <= dod:", "C18.R2"),
+        M("C18", "et-eco-power-upper-1000", ET, "            if eco_mode_power < 0 or eco_mode_power > 100:\n                raise ValueError()", "            if eco_mode_power < 0 or eco_mode_power > 1000:\n                raise ValueError()", "C18.R2"),
+        M("C18", "es-eco-soc-silently-ignored", ES, "            if eco_mode_soc < 0 or eco_mode_soc > 100:\n                raise ValueError()", "            if eco_mode_soc < 0 or eco_mode_soc > 100:\n                return", "C18.R2"),
+        M("C18", "es-eco-check-after-request", ES, "            if eco_mode_power < 0 or eco_mode_power > 100:\n                raise ValueError()\n            if eco_mode_soc < 0 or eco_mode_soc > 100:\n                raise ValueError()\n            eco_mode: EcoMode | Sensor = self._settings.get('eco_mode_1')\n            await self._read_setting(eco_mode)",
+          "            eco_mode: EcoMode | Sensor = self._settings.get('eco_mode_1')\n            await self._read_setting(eco_mode)\n            if eco_mode_power < 0 or eco_mode_power > 100:\n                raise ValueError()\n            if eco_mode_soc < 0 or eco_mode_soc > 100:\n                raise ValueError()", "C18.R2"),
+        M("C18", "es-charge-limit-upper-unchecked", ES, "        if limit < 0 or limit > 100:\n            raise ValueError()\n        await self._read_from_socket(Aa55ProtocolCommand(\n            f\"032c05", "        if limit < 0:\n            raise ValueError()\n        await self._read_from_socket(Aa55ProtocolCommand(\n            f\"032c05", "C18.R2"),
+        M("C18", "benign-et-export-limit-early-return", ET, "        if export_limit >= 0:\n            await self.write_setting('grid_export_limit', export_limit)", "        if export_limit < 0:\n            return\n        await self.write_setting('grid_export_limit', export_limit)", "clean"),
+        M("C18", "et-unknown-id-silently-ignored", ET, "            if setting_id.startswith(\"modbus\"):\n                await self._read_from_socket(self._write_command(int(setting_id[7:]), int(value)))\n            else:\n                raise ValueError(f'Unknown setting \"{setting_id}\"')",
+          "            if setting_id.startswith(\"modbus\"):\n                await self._read_from_socket(self._write_command(int(setting_id[7:]), int(value)))\n            else:\n                logger.debug('Unknown setting %s', setting_id)", "C18.R3"),
+        M("C18", "dt-unknown-id-treated-as-modbus", DT, "            if setting_id.startswith(\"modbus\"):\n                await self._read_from_socket(self._write_command(", "            if True:\n                await self._read_from_socket(self._write_command(", "C18.R3|error"),
+        M("C18", "es-unknown-id-written", ES, "            if not setting:\n                raise ValueError(f'Unknown setting \"{setting_id}\"')\n            await self._write_setting(setting, value)", "            await self._write_setting(setting, value)", "C18.R3|error"),
+    ]
+
+
 def corpus() -> List[M]:
     out: List[M] = []
     for name, fn in sorted(globals().items()):
